@@ -927,7 +927,7 @@ func (p *Prog) FieldWrites() []FieldWrite {
 					case *ast.UnaryExpr:
 						// &x.F hands out a mutable reference to the field
 						if x.Op.String() == "&" {
-							if f := FieldID(info, x.X); f != "" {
+							if f := FieldID(info, x.X); f != "" && !AddrOnlySelected(info, node, x) {
 								out = append(out, FieldWrite{Field: f, Pkg: rel, Func: fname, Pos: p.Pos(x.Pos()), Op: "&"})
 							}
 						}
